@@ -238,6 +238,9 @@ pub fn gen_record(r: &mut Prng, format: Format, uniq: usize) -> Rec {
             let decimal = r.chance(1, 4);
             let midpoints = decimal && r.chance(1, 3);
             let spellings = decimal && !midpoints && r.chance(1, 3);
+            // plain integer counts of 8-10 digits that no f32 holds exactly: the reader must still give the
+            // correctly rounded value of the written text (round 7, seed C14-g21)
+            let big_ints = !decimal && r.chance(1, 4);
             for _ in 0..rec.syms.len() * width {
                 if midpoints && r.chance(1, 3) {
                     let (lo, hi) = *r.pick(&[(0.0f32, 1.0f32), (1.0, 50.0), (16_777_000.0, 16_778_000.0), (0.5, 0.5001)]);
@@ -257,6 +260,9 @@ pub fn gen_record(r: &mut Prng, format: Format, uniq: usize) -> Rec {
                     let whole = r.below(50);
                     let frac = *r.pick(&["0", "25", "5", "75", "125", "1", "333"]);
                     rec.cells.push(format!("{}.{}", whole, frac));
+                } else if big_ints && r.chance(1, 2) {
+                    let v = (1u64 << 24) + r.below((1u64 << 31) - (1u64 << 24));
+                    rec.cells.push(v.to_string());
                 } else {
                     rec.cells.push(gen_count(r, 1 << 24));
                 }
